@@ -46,16 +46,43 @@ Exprs == {
   Fn(<<115,111,114,116,95,98,121>>, <<X, Comma, AmpT, Id(<<110,111,107,101,121>>)>>),            \* null keys: invalid-type (except the empty array)
   Fn(<<115,111,114,116>>, <<X>>) }                                          \* objects are not sortable: invalid-type
 
+\* Re-entrancy: a function that takes an expression reference, used inside the
+\* expression reference of the same or another such function (the inner
+\* arrays are shorter and longer than the outer one)
+Grp(k, ns) == Obj(<<Mem(<<107>>, JInt(k)), Mem(<<118>>, Arr([j \in 1..Len(ns) |-> Obj(<<Mem(<<110>>, JInt(ns[j]))>>)]))>>)
+ReDoc == Obj(<<Mem(<<120>>, Arr(<<Grp(1, <<5, 3>>), Grp(2, <<9>>), Grp(3, <<4, 8, 1, 7, 6, 2>>), Grp(4, <<3, 3, 0>>), Grp(5, <<2, 5>>)>>))>>)
+V == Id(<<118>>)  Nf == Id(<<110>>)
+SortV == Fn(<<115,111,114,116,95,98,121>>, <<V, Comma, AmpT, Nf>>)
+ReExprs == {
+  Fn(<<115,111,114,116,95,98,121>>, <<X, Comma, AmpT>> \o SortV \o <<LB, IntT(<<48>>), RB, Dot, Nf>>) \o <<LB, Star, RB, Dot, Kf>>,
+  Fn(<<115,111,114,116,95,98,121>>, <<X, Comma, AmpT>> \o SortV \o <<LB, IntT(<<45,49>>), RB, Dot, Nf>>) \o <<LB, Star, RB, Dot, Kf>>,
+  Fn(<<115,111,114,116,95,98,121>>, <<X, Comma, AmpT>> \o Fn(<<109,97,120,95,98,121>>, <<V, Comma, AmpT, Nf>>) \o <<Dot, Nf>>) \o <<LB, Star, RB, Dot, Kf>>,
+  Fn(<<109,97,120,95,98,121>>, <<X, Comma, AmpT>> \o Fn(<<108,101,110,103,116,104>>, SortV)) \o <<Dot, Kf>>,
+  Fn(<<109,105,110,95,98,121>>, <<X, Comma, AmpT>> \o Fn(<<109,105,110,95,98,121>>, <<V, Comma, AmpT, Nf>>) \o <<Dot, Nf>>) \o <<Dot, Kf>>,
+  Fn(<<109,97,112>>, <<AmpT>> \o SortV \o <<LB, Star, RB, Dot, Nf, Comma, X>>),
+  Fn(<<109,97,112>>, <<AmpT>> \o Fn(<<109,97,112>>, <<AmpT, Nf, Comma, V>>) \o <<Comma, X>>),
+  Fn(<<115,111,114,116,95,98,121>>, <<X, Comma, AmpT>> \o Fn(<<115,117,109>>, Fn(<<109,97,112>>, <<AmpT, Nf, Comma, V>>))) \o <<LB, Star, RB, Dot, Kf>>,
+  Fn(<<115,111,114,116,95,98,121>>, <<X, Comma, AmpT>> \o Fn(<<115,111,114,116>>, <<V, LB, Star, RB, Dot, Nf>>) \o <<LB, IntT(<<48>>), RB>>) \o <<LB, Star, RB, Dot, Kf>>,
+  <<X, LB, Star, RB, Dot>> \o SortV \o <<LB, IntT(<<48>>), RB, Dot, Nf>>,
+  Fn(<<103,114,111,117,112,95,98,121>>, <<X, Comma, AmpT>> \o Fn(<<116,111,95,115,116,114,105,110,103>>, Fn(<<108,101,110,103,116,104>>, SortV))),
+  Fn(<<115,111,114,116,95,98,121>>, Fn(<<115,111,114,116,95,98,121>>, <<X, Comma, AmpT, Kf>>) \o <<Comma, AmpT>> \o SortV \o <<LB, IntT(<<48>>), RB, Dot, Nf>>) \o <<LB, Star, RB, Dot, Kf>>,
+  Fn(<<115,111,114,116,95,98,121>>, <<X, Comma, AmpT>> \o Fn(<<116,111,95,115,116,114,105,110,103>>, Fn(<<115,111,114,116,95,98,121>>, <<V, Comma, AmpT>> \o Fn(<<116,111,95,115,116,114,105,110,103>>, <<Nf>>)) \o <<LB, IntT(<<48>>), RB, Dot, Nf>>)) \o <<LB, Star, RB, Dot, Kf>>,
+  Fn(<<115,111,114,116,95,98,121>>, <<X, Comma, AmpT>> \o <<LetT, VarT(<<36,109>>), AssignT>> \o SortV \o <<InT, VarT(<<36,109>>), LB, IntT(<<48>>), RB, Dot, Nf>>) \o <<LB, Star, RB, Dot, Kf>> }
+
 Check ==
   LET doc   == DocOf(inst)
       cases == { [expr |-> Render(e), adm |-> Admissible(e, doc)] : e \in Exprs }
-      case  == [p |-> Prop, kind |-> "search", doc |-> doc, multi |-> cases]
+      recases == IF inst.n = 0 /\ inst.pat = 1 /\ ~inst.str
+                 THEN { [expr |-> Render(e), adm |-> Admissible(e, ReDoc), doc |-> ReDoc] : e \in ReExprs } ELSE {}
+      case  == [p |-> Prop, kind |-> "search", doc |-> doc,
+                multi |-> { [expr |-> c.expr, adm |-> c.adm, doc |-> doc] : c \in cases } \cup recases]
       vals  == ArrOf(inst).a
       keys  == [j \in 1..Len(vals) |-> ObjGet(vals[j], <<107>>)]
       out   == SortByKeys(vals, keys)
       pos(v) == CHOOSE j \in 1..Len(vals) : vals[j] = v          \* payloads are unique
   IN /\ Emit => PrintT("CASE " \o ToJson(case))
      \* the defining predicate of a stable sort
+     /\ Named(\A c \in recases : \A o \in c.adm : IsVal(o), "ReentrantFamilyIsWellTyped")
      /\ Named(Len(out) = Len(vals) /\ \A j \in 1..Len(vals) : \E m \in 1..Len(out) : out[m] = vals[j], "Permutation")
      /\ Named(out = InsSortByKeys(vals, keys), "RankSortEqualsInsertionSort")
      /\ Named(\A m \in 1..(Len(out) - 1) : ~KeyLess(ObjGet(out[m + 1], <<107>>), ObjGet(out[m], <<107>>)), "Ordered")
